@@ -86,8 +86,34 @@ GUARD_METHODS = {
 }
 
 
+def check_guard_types(F, rep):
+    """The borrow checker enforces exclusivity and linearity only if the guard really holds the unique borrow and its finishing methods
+    consume it: `current: Option<&'a mut T>` (private), `original: PhantomData<&'a mut U>`, no other field, no Clone/Copy impl,
+    restore / then_into_* / into_*_guard take `self` by value."""
+    n = 0
+    for a in F.adts:
+        if not a["path"].endswith("MutGuard"):
+            continue
+        n += 1
+        fields = [(f["n"], F.S[f["t"]], bool(f.get("pub"))) for f in a["variants"][0]["f"]]
+        ok = fields == [("current", "std::option::Option<&'a mut T>", False), ("original", "std::marker::PhantomData<&'a mut U>", False)]
+        cloneable = [im["self_s"] for im in F.impls if (im.get("self_adt") or "") == a["path"] and str(im.get("trait") or "").split("::")[-1] in ("Clone", "Copy")]
+        byval = []
+        for b in F.bodies:
+            im = b.get("_impl")
+            if im is None or (im.get("self_adt") or "") != a["path"] or b["name"] not in GUARD_METHODS or b["name"] == "drop":
+                continue
+            t0 = F.S[b["ins"][0]] if b.get("ins") else ""
+            if t0.startswith("&"):
+                byval.append(b["name"])
+        rep.ob("GUARD-TYPE", a["path"].split("::")[-1], ok and not cloneable and not byval,
+               "fields %s; Clone/Copy impls %s; finishing methods taking a reference %s" % (fields, cloneable, byval), "%s" % a["path"])
+    rep.floor("guard types", n, 2)
+
+
 def run(F, rep, tier="quick", extra=None, only=None):
     rep.trusted += ["rustc name resolution / type check (callee identity and generic arguments)", "the rename table between the clamped and unclamped modules (rules/c13.py)"]
+    check_guard_types(F, rep)
     shapes = {}
     for kind, fsuffix in FILES.items():
         bodies = [b for b in F.bodies if b["file"].endswith(fsuffix) and b["dk"] in ("Fn", "AssocFn") and "::test" not in b["path"]]
@@ -128,6 +154,19 @@ def run(F, rep, tier="quick", extra=None, only=None):
                         # generic args of Trait::method are [Self(target), Source]
                         if a[:2] != list(targs):
                             problems.append("conversion instantiated as %s <- %s, expected %s <- %s" % (a[0], a[1] if len(a) > 1 else "?", targs[0], targs[1]))
+                # path sensitivity: the take (and with it the restore) happens on EVERY path through the method: no early exit, and the
+                # `take()` is not inside a branch arm (the scrutinee/condition position of `if let Some(c) = self.current.take()` is fine)
+                exits = [nd for nd, _p in facts.walk(b["body"]) if nd.get("k") in ("ret", "try")]
+                if exits:
+                    problems.append("early exit at line %s: on that path the buffer is left in the converted type" % exits[0].get("l"))
+                for p, a, nd, pp in cs:
+                    if p.endswith("::take") and is_self_current(nd.get("r") or {}):
+                        chain = list(pp) + [nd]
+                        for par, ch in zip(chain, chain[1:]):
+                            if (par.get("k") == "if" and (ch is par.get("th") or ch is par.get("el"))) or \
+                               (par.get("k") == "match" and any(ch is arm.get("b") or ch is arm.get("g") for arm in par.get("arms", []))):
+                                problems.append("`self.current.take()` at line %s is conditional (inside a branch arm at line %s)" % (nd.get("l"), par.get("l")))
+                                break
                 if name == "drop":
                     fg = [n for p, a, n, pp in cs if p.endswith("mem::forget")]
                     if len(fg) != 1:
@@ -193,6 +232,24 @@ def run(F, rep, tier="quick", extra=None, only=None):
             n += 1
             ok = maps == [want_map] and len(fns) == 1 and fns[0][0] == fn
             rep.ob("GUARD-4", "%s[%s]" % (fn, s), ok, "maps with %s through %s (expected %s through %s)" % (fns, maps, fn, want_map), F.loc(b))
+            # GUARD-4/PATH: on EVERY path the result is that map applied to the argument: no early return, no other producer of the
+            # result type (a fresh `Vec::new()` for the empty case gives up the allocation: same address/capacity is part of the property)
+            tail = b["body"]
+            while isinstance(tail, dict) and tail.get("k") == "block" and tail.get("e"):
+                tail = tail["e"]
+            problems = []
+            rets = [nd for nd, _p in facts.walk(b["body"]) if nd.get("k") == "ret"]
+            if rets:
+                problems.append("early `return` at line %s bypasses the in-place map" % rets[0].get("l"))
+            tc = tail.get("c") if isinstance(tail, dict) else None
+            if not (isinstance(tail, dict) and tail.get("k") == "call" and isinstance(tc, dict) and tc.get("n") == want_map):
+                problems.append("the value of the body is not the call %s(arg, %s)" % (want_map, fn))
+            else:
+                a0 = tail["a"][0] if tail.get("a") else {}
+                if not (a0.get("k") == "path" and (a0.get("res") or {}).get("k") == "local"):
+                    problems.append("the mapped buffer is not the argument itself")
+            rep.ob("GUARD-4/PATH", "%s[%s]" % (fn, s), not problems, "; ".join(problems) if problems else
+                   "single path: %s(<argument>, %s)" % (want_map, fn), F.loc(b))
     rep.floor("Vec/Box in-place impls", n, 4)
     # ---------------- same memory: the in-place maps (shared with C04)
     from .c04 import check_in_place_maps, ALLOC_DENY
